@@ -75,6 +75,7 @@ def run(tier, seed, replay):
         rep.cov["tlc_enumerated_depth1_path_expressions"] = len(d1)
         if quick:
             keep = [g for g in d1 if "[] |" in g["p"] or "{} |" in g["p"] or "select(false)" in g["p"]][:250]     # computed empty containers: the invalid-path boundary
+            keep += r.sample([g for g in d1 if " as [" in g["p"] or " as {" in g["p"]], 250)                      # destructuring bindings inside path expressions
             d1 = keep + r.sample(d1, 600)
         cases, pairs = [], []
 
